@@ -2,7 +2,10 @@
 SIG_RERUN = "oracle:succeeded:input-changed-during-command:hash-re-recorded-by-producer-rerun"
 SIG_RECONF = "oracle:succeeded:input-changed-during-command:hash-re-recorded-by-reconfirmation"
 SIG_OTHER = "oracle:succeeded:input-changed-during-command:other"
-# Not a C03 violation (no success is recorded, no command runs): the dispatch loop of
-# validate_dynamic_job's "digest unchanged" branch (C10: "every build phase terminates").  Observed
-# and recorded on every run; reported as a failure only when VERIF_C03_REPORT_LOOP=1.
+# Finding D36 (fixed by /repo d760e3e; a dispatch loop, C10 termination, not a C03 violation): the
+# "digest unchanged" branch of validate_dynamic_job left the step PENDING and not deferred, so the
+# same VALIDATE_DYNAMIC job was handed out for ever.  Replayed as a regression on every run.
 SIG_VALIDATE_LOOP = "oracle:validate:unchanged-branch-redispatched-forever"
+# Finding D37 (open): the skip-path analogue of D19: the record of an input is replaced while
+# try_skip_job is still checking, and the skip is recorded none the less.
+SIG_SKIP_WINDOW = "oracle:skip:succeeded:input-re-recorded-during-check"
